@@ -557,6 +557,14 @@ func c20Lifecycle(c *harness.Ctx, idx *int) {
 			if _, ok := r.Expect(1); !ok {
 				return "added-peer-refuses-inbound", "a passive peer added while serving did not answer an inbound connection with an OPEN"
 			}
+			// the inbound connection of the passive peer goes down: it still never dials
+			r.C.Close()
+			vrt.Sleep(12 * time.Second)
+			for _, ev := range w.Log {
+				if ev.Kind == "dial" && ev.Peer == "P2" {
+					return "passive-peer-dialled", "a passive peer dialled after its inbound connection went down"
+				}
+			}
 			// delete the active peer: its dialling stops
 			if err := s.DeletePeer(netip.MustParseAddr(remIP)); err != nil {
 				return "setup", err.Error()
